@@ -26,7 +26,7 @@ var c14sHdr = [][2]string{{":method", "POST"}, {":scheme", "http"}, {":path", "/
 // loopy (the two GOAWAYs) and Drain, every stream at or below the final
 // GOAWAY's last-stream-id must have reached the handler (or been reset), and
 // none above it may.
-func c14ServerScenario(name string, newStreams int, bound int) vsched.Scenario {
+func c14ServerScenario(name string, newStreams int, bound int, noPre ...bool) vsched.Scenario {
 	return vsched.Scenario{Name: name, Bound: bound, Horizon: 20000, Body: func(x *vsched.X) {
 		x.BackgroundSetup()
 		cconn, sconn := wire.Pipe()
@@ -49,9 +49,14 @@ func c14ServerScenario(name string, newStreams int, bound int) vsched.Scenario {
 			st.Close(errors.New("finished serving"))
 		})
 		synctest.Wait()
-		sent := []uint32{1}
-		peer.WriteHeaders(1, c14sHdr, false)
-		synctest.Wait()
+		// normally one stream is already being served when the drain starts;
+		// with noPre the connection is idle (nothing established in the writer)
+		sent := []uint32{}
+		if len(noPre) == 0 || !noPre[0] {
+			sent = append(sent, 1)
+			peer.WriteHeaders(1, c14sHdr, false)
+			synctest.Wait()
+		}
 		x.Go("drain", func() { st.Drain("") })
 		x.Go("client", func() {
 			for i := 0; i < newStreams; i++ {
@@ -138,6 +143,34 @@ func c14ServerScenario(name string, newStreams int, bound int) vsched.Scenario {
 				x.Fail("C14", "server/final-goaway-id", "final GOAWAY last-stream-id %d is below the highest handled stream %d", finalID, maxHandled)
 			}
 			x.Outcome(fmt.Sprintf("final=%d handled=%d", finalID, len(handled)))
+			// "serves every stream up to that id to completion": the handlers
+			// now finish; every accepted stream must get its trailers, i.e. the
+			// drain must not have closed the connection under them.
+			hs := map[uint32]*ServerStream{}
+			for id, hst := range handled {
+				if id <= finalID {
+					hs[id] = hst
+				}
+			}
+			mu.Unlock()
+			for _, hst := range hs {
+				hst.WriteStatus(status.New(codes.OK, ""))
+			}
+			synctest.Wait()
+			mu.Lock()
+			answered := map[uint32]bool{}
+			for _, f := range peer.Log() {
+				if (f.Type == "HEADERS" && f.EndStream) || f.Type == "RST_STREAM" {
+					answered[f.Stream] = true
+				}
+			}
+			for id := range hs {
+				if !answered[id] {
+					for _, P := range []string{"C14", "C25"} {
+						x.Fail(P, "server/accepted-stream-not-served-to-completion", "stream %d (<= final GOAWAY last-stream-id %d) was accepted and its handler returned OK, but the client never received its trailers: connection closed=%v (%s)", id, finalID, peer.Closed(), peer.LogString())
+					}
+				}
+			}
 		})
 		x.Cleanup(func() {
 			mu.Lock()
@@ -164,7 +197,7 @@ func TestVerif_C14_ServerDrainSched(t *testing.T) {
 		r.Assume(P, "scheduling points at sync/atomic/channel operations of internal/transport suffice")
 	}
 	b := r.Pick(1, 2)
-	scs := []vsched.Scenario{c14ServerScenario("drain/new1", 1, b), c14ServerScenario("drain/new2", 2, b)}
+	scs := []vsched.Scenario{c14ServerScenario("drain/new1", 1, b), c14ServerScenario("drain/idle/new1", 1, b, true), c14ServerScenario("drain/new2", 2, b)}
 	vsched.RunScenarios(t, r, props, scs)
 	for _, P := range props {
 		r.Sample(P, map[string]any{"scenario": "drain/new1", "threads": []string{"drain: Drain()", "client: HEADERS(stream 3)", "pingack: PING ack once the drain PING arrived", "background: serve (HandleStreams reader), loopy"}})
